@@ -72,6 +72,20 @@ def gen_cases(tier, seed):
             pos += [base + hl + k for k in range(0, max(0, len(fr) - hl), 1 if not q else 2)]
             for pb in perturb(rng, buf, pos)[:: (1 if not q else 3)]:
                 cases += all_ops(pb, ops=ops)
+    # every element whose body a parser looks inside, cut at every byte (the length octet follows the cut), as the
+    # last element of the frame (anything read past it is past the parser's own copy) and followed by another
+    n_elcut = 0
+    for rep in range(2 if q else 20):
+        inner = [(48, F.rsn_body(rng, pairwise=F.rand_suites(rng, "rsn", 2), akms=F.rand_suites(rng, "rsn", 2))),
+                 (221, F.wpa_body(rng, uc=F.rand_suites(rng, "wpa", 2), akms=F.rand_suites(rng, "wpa", 2))),
+                 (221, F.MSFT + bytes([4, 1, 2, 3])), (221, F.MSFT + bytes([2, 1, 2, 3])), (221, bytes([0, 15, 172, 1, 2])),
+                 (3, bytes([6, 1])), (61, bytes(range(24))), (0, b"abcd"), (1, bytes([2, 4, 11, 22])), (7, b"DE \x01\x0d\x14")]
+        for st in F.PARSABLE:
+            for num, full in inner:
+                for k in range(len(full) + 1):
+                    for els in ([F.el(num, full[:k])], [F.el(0, b"x"), F.el(num, full[:k])], [F.el(num, full[:k]), F.el(0, b"x")]):
+                        fr = F.mgmt(rng, st, els, ordered=False)
+                        cases.append("mgmt 0 " + hx(fr)); n_elcut += 1
     # radiotap headers and tag buffers
     for _ in range(300 if q else 6000):
         h = rtgen.rtap_single(rng.getrandbits(23), rng) if rng.random() < 0.5 else rtgen.rtap_multi(rng)
@@ -89,7 +103,7 @@ def gen_cases(tier, seed):
         if rng.random() < 0.7:
             b[0] = rng.choice([0x80, 0x50, 0x40, 0x00, 0x10, 0x20, 0x30, 0xa0, 0xc0, 0x08, 0x88, 0xb4]); b[1] = rng.choice([0, 0x80])
         cases += all_ops(bytes(b), ops=rng.sample(OPS, 3))
-    return cases, {"small_exhaustive_cases": n_small, "structured_frames": len(structured), "total": len(cases)}
+    return cases, {"small_exhaustive_cases": n_small, "structured_frames": len(structured), "element_cut_frames": n_elcut, "total": len(cases)}
 
 
 def judge(case, impl, model, spec=None):
